@@ -11,6 +11,7 @@ import (
 	"time"
 
 	"github.com/datastax/go-cassandra-native-protocol/frame"
+	"github.com/datastax/go-cassandra-native-protocol/message"
 	"github.com/datastax/go-cassandra-native-protocol/primitive"
 
 	"verif/fcheck"
@@ -46,6 +47,11 @@ func sources(b []byte) map[string]func() (io.Reader, func() []byte) {
 		"plain":    mk(func(r *bytes.Reader) io.Reader { return nonSeeker{r} }),
 		"one-byte": mk(func(r *bytes.Reader) io.Reader { return iotest.OneByteReader(r) }),
 		"half":     mk(func(r *bytes.Reader) io.Reader { return iotest.HalfReader(r) }),
+		// a *bytes.Buffer that holds more than the frame: compressors special-case this source type
+		"buffer": func() (io.Reader, func() []byte) {
+			bb := bytes.NewBuffer(append(append([]byte{}, b...), sentinel...))
+			return bb, func() []byte { return append([]byte{}, bb.Bytes()...) }
+		},
 	}
 }
 
@@ -63,6 +69,7 @@ func main() {
 	}
 	c := vlib.New("C05", "model_checking")
 	o := fcheck.Opts(c)
+	o.D-- // every frame goes through 7 paths x 5 sources: one deviation level less than C01 (1 quick, 2 thorough)
 	var evals, validated, reenc int64
 	var mu sync.Mutex
 	lastRaw := map[string]*prev{} // previous conversion per (version, compression): aliasing between successive conversions
@@ -87,6 +94,11 @@ func main() {
 			}
 			fail := func(kind, path, format string, a ...interface{}) {
 				c.Violation(keys(kind, path), fmt.Sprintf("%s (%s): %s", cs.Name, comp, fmt.Sprintf(format, a...)), map[string]interface{}{"case": cs.Name, "compression": comp})
+			}
+			// a frame that does not round-trip through the plain DecodeFrame is C01's business (it is
+			// reported there); the paths are compared only for frames that do
+			if pre, err := codec.DecodeFrame(bytes.NewReader(wire)); err != nil || gen.Equal(orig, pre, fcheck.Ignore) != "" {
+				continue
 			}
 			var ref *frame.Frame
 			for sname, mk := range sources(wire) {
@@ -191,6 +203,10 @@ func main() {
 						c.Violation(keys("mismatch", "ConvertToRawFrame;ConvertToRawFrame;EncodeRawFrame"), fmt.Sprintf("raw frame of %s changed after a later ConvertToRawFrame (%s): differs at %s", p.name, cs.Name, d), []string{p.name, cs.Name})
 					}
 				}
+				// ... and on this goroutine: another conversion between ConvertToRawFrame and EncodeRawFrame
+				// (a scratch buffer recycled through a pool comes straight back to the next caller)
+				other := frame.NewFrame(v, 1, &message.Query{Query: "SELECT something_else FROM another_table WHERE k = ?", Options: &message.QueryOptions{Consistency: primitive.ConsistencyLevelOne}})
+				_, _ = raw.ConvertToRawFrame(other)
 				out := &bytes.Buffer{}
 				if err := raw.EncodeRawFrame(rf6, out); err != nil {
 					fail("encode-error", "EncodeRawFrame", "%v", err)
@@ -239,14 +255,14 @@ func main() {
 	}
 	reenc += rst.Cases
 	c.Set("reencode_mutants", rst.Cases)
-	c.Sample(map[string]interface{}{"note": "each frame goes through 7 paths x 4 source kinds (seekable, plain, one-byte, half readers)"})
+	c.Sample(map[string]interface{}{"note": "each frame goes through 7 paths x 5 source kinds (seekable bytes.Reader, plain, one-byte and half readers, a bytes.Buffer holding trailing bytes)"})
 	c.Set("states", n)
 	c.Set("transitions", evals*5+reenc)
 	c.Set("traces_validated_against_impl", validated+reenc)
 	c.Set("frames_generated", n)
 	c.Set("reencoded", reenc)
 	c.Set("bound", map[string]interface{}{"field_deviations": o.D, "type_depth": o.TypeDepth})
-	c.Set("rule", "every generated frame x compression through DecodeFrame, DecodeRawFrame+ConvertFromRawFrame, DecodeHeader+DecodeBody, +DecodeRawBody, +DiscardBody (4 kinds of source), ConvertToRawFrame+EncodeRawFrame (also delayed past the next conversion), EncodeHeader+EncodeBody; re-encode clause (decode -> encode -> decode) on every frame")
+	c.Set("rule", "every generated frame x compression through DecodeFrame, DecodeRawFrame+ConvertFromRawFrame, DecodeHeader+DecodeBody, +DecodeRawBody, +DiscardBody (5 kinds of source), ConvertToRawFrame+EncodeRawFrame (also delayed past the next conversion), EncodeHeader+EncodeBody; re-encode clause (decode -> encode -> decode) on every frame")
 	c.Finish()
 }
 
